@@ -1,6 +1,8 @@
 package main
 
 import (
+	"path/filepath"
+	"go/token"
 	"context"
 	"fmt"
 	"regexp"
@@ -141,7 +143,7 @@ func VerifyUnit(ld *Loaded, u *FuncUnit, cfg *Config) (res *UnitResult) {
 		// one obligation per postcondition and return point: no merged state, no merged results
 		exs := x.topExits
 		if len(exs) == 0 {
-			exs = []exitRec{{exit, results}}
+			exs = []exitRec{{exit, results, token.NoPos}}
 		}
 		for _, e := range exs {
 			pargs := append([]Val{}, args...)
@@ -157,6 +159,10 @@ func VerifyUnit(ld *Loaded, u *FuncUnit, cfg *Config) (res *UnitResult) {
 				}
 				x.curProps = x.propsOf(c, u)
 				x.addObl(&Frame{lpkg: u.Pkg, fn: fn}, est, "post", nil, lbl, post.L[k])
+				if e.pos.IsValid() && len(x.obls) > 0 {
+					pp := x.ld.Fset.Position(e.pos)
+					x.obls[len(x.obls)-1].Pos = fmt.Sprintf("return at %s:%d", filepath.Base(pp.Filename), pp.Line)
+				}
 			}
 		}
 		x.curProps = u.C.Props
